@@ -26,6 +26,20 @@ var VFS = map[string]*VNode{
 	"/bin": {Dir: true, Mode: fs.ModeDir | 0o755},
 }
 
+// Crash-point model: every file-system operation calls vOp first; when the
+// operation counter reaches VCrashAt the process "dies" (a panic with
+// VCrashMsg which the harness recognises). 0 = never.
+var VOps, VCrashAt int
+
+const VCrashMsg = "verif: process killed here"
+
+func vOp() {
+	VOps++
+	if VCrashAt != 0 && VOps == VCrashAt {
+		panic(VCrashMsg)
+	}
+}
+
 // VCwd is the process working directory.
 var VCwd = "/"
 
@@ -96,6 +110,7 @@ func vLookup(p string, follow bool) (*VNode, error) {
 }
 
 func Os_Stat(name string) (fs.FileInfo, error) {
+	vOp()
 	n, err := vLookup(name, true)
 	if err != nil {
 		return nil, &fs.PathError{Op: "stat", Path: name, Err: err}
@@ -104,6 +119,7 @@ func Os_Stat(name string) (fs.FileInfo, error) {
 }
 
 func Os_Lstat(name string) (fs.FileInfo, error) {
+	vOp()
 	n, err := vLookup(name, false)
 	if err != nil {
 		return nil, &fs.PathError{Op: "lstat", Path: name, Err: err}
@@ -137,6 +153,7 @@ func (d vDirEntry) Type() fs.FileMode          { return d.n.Mode.Type() }
 func (d vDirEntry) Info() (fs.FileInfo, error) { return d.vInfo, nil }
 
 func Os_ReadDir(name string) ([]os.DirEntry, error) {
+	vOp()
 	n, err := vLookup(name, true)
 	if err != nil {
 		return nil, &fs.PathError{Op: "open", Path: name, Err: err}
@@ -209,6 +226,7 @@ func vParent(p string) string {
 }
 
 func Os_OpenFile(name string, flag int, perm fs.FileMode) (*os.File, error) {
+	vOp()
 	n, err := vLookup(name, true)
 	if err != nil {
 		if flag&os.O_CREATE == 0 {
@@ -241,15 +259,19 @@ func Os_Create(name string) (*os.File, error) {
 	return Os_OpenFile(name, os.O_RDWR|os.O_CREATE|os.O_TRUNC, 0o666)
 }
 
+// VStdinNode holds what os.Stdin delivers.
+var VStdinNode = &VNode{Mode: 0o620 | fs.ModeCharDevice}
+
+func init() {
+	// package os is not initialised by the engine; give the standard streams identities
+	os.Stdin = vNewFile(&vFile{name: "/dev/stdin", node: VStdinNode, rd: true})
+	os.Stdout = vNewFile(&vFile{name: "/dev/stdout", node: VStdoutNode, wr: true, app: true})
+	os.Stderr = vNewFile(&vFile{name: "/dev/stderr", node: VStderrNode, wr: true, app: true})
+}
+
 func vOf(f *os.File) (*vFile, error) {
 	if f == nil {
 		return nil, fs.ErrInvalid
-	}
-	if f == os.Stdout {
-		return &vFile{name: "/dev/stdout", node: VStdoutNode, wr: true, app: true}, nil
-	}
-	if f == os.Stderr {
-		return &vFile{name: "/dev/stderr", node: VStderrNode, wr: true, app: true}, nil
 	}
 	vf := vFiles[f]
 	if vf == nil {
@@ -262,6 +284,7 @@ func vOf(f *os.File) (*vFile, error) {
 }
 
 func OsFile_Read(f *os.File, b []byte) (int, error) {
+	vOp()
 	vf, err := vOf(f)
 	if err != nil {
 		return 0, err
@@ -292,6 +315,7 @@ func OsFile_Read(f *os.File, b []byte) (int, error) {
 }
 
 func OsFile_Write(f *os.File, b []byte) (int, error) {
+	vOp()
 	vf, err := vOf(f)
 	if err != nil {
 		return 0, err
@@ -320,6 +344,7 @@ func OsFile_Write(f *os.File, b []byte) (int, error) {
 func OsFile_WriteString(f *os.File, s string) (int, error) { return OsFile_Write(f, []byte(s)) }
 
 func OsFile_Close(f *os.File) error {
+	vOp()
 	vf, err := vOf(f)
 	if err != nil {
 		return err
@@ -331,7 +356,7 @@ func OsFile_Close(f *os.File) error {
 			vf.pipe.rclosed = true
 		}
 	}
-	if f != os.Stdout && f != os.Stderr {
+	if f != os.Stdout && f != os.Stderr && f != os.Stdin {
 		vf.closed = true
 	}
 	return nil
@@ -344,10 +369,14 @@ func OsFile_Name(f *os.File) string {
 	return ""
 }
 func OsFile_Fd(f *os.File) uintptr                        { return 3 }
-func OsFile_Sync(f *os.File) error                        { return nil }
+func OsFile_Sync(f *os.File) error {
+	vOp()
+	return nil
+}
 func OsFile_SetReadDeadline(f *os.File, t time.Time) error { return nil }
 func OsFile_SetDeadline(f *os.File, t time.Time) error     { return nil }
 func OsFile_Stat(f *os.File) (fs.FileInfo, error) {
+	vOp()
 	vf, err := vOf(f)
 	if err != nil {
 		return nil, err
@@ -358,6 +387,7 @@ func OsFile_Stat(f *os.File) (fs.FileInfo, error) {
 	return vInfo{vBase(vf.name), vf.node}, nil
 }
 func OsFile_Chmod(f *os.File, mode fs.FileMode) error {
+	vOp()
 	vf, err := vOf(f)
 	if err != nil {
 		return err
@@ -371,6 +401,7 @@ func OsFile_Chmod(f *os.File, mode fs.FileMode) error {
 var io_EOF = vEOF()
 
 func Os_Remove(name string) error {
+	vOp()
 	abs := vAbs(name)
 	if _, ok := VFS[abs]; !ok {
 		return &fs.PathError{Op: "remove", Path: name, Err: syscall.ENOENT}
@@ -388,6 +419,7 @@ func Os_Remove(name string) error {
 }
 
 func Os_Rename(oldpath, newpath string) error {
+	vOp()
 	oa, na := vAbs(oldpath), vAbs(newpath)
 	n, ok := VFS[oa]
 	if !ok {
@@ -414,6 +446,7 @@ func Os_Rename(oldpath, newpath string) error {
 }
 
 func Os_Chmod(name string, mode fs.FileMode) error {
+	vOp()
 	n, err := vLookup(name, true)
 	if err != nil {
 		return &fs.PathError{Op: "chmod", Path: name, Err: err}
@@ -423,6 +456,7 @@ func Os_Chmod(name string, mode fs.FileMode) error {
 }
 
 func Os_ReadFile(name string) ([]byte, error) {
+	vOp()
 	n, err := vLookup(name, true)
 	if err != nil {
 		return nil, &fs.PathError{Op: "open", Path: name, Err: err}
@@ -431,4 +465,37 @@ func Os_ReadFile(name string) ([]byte, error) {
 		return nil, &fs.PathError{Op: "read", Path: name, Err: syscall.EISDIR}
 	}
 	return append([]byte(nil), n.Data...), nil
+}
+
+var vTempCounter int
+
+func Os_CreateTemp(dir, pattern string) (*os.File, error) {
+	if dir == "" {
+		dir = "/tmp"
+	}
+	for {
+		vTempCounter++
+		name := dir + "/" + pattern + "tmp" + string(rune('0'+vTempCounter%10))
+		f, err := Os_OpenFile(name, os.O_RDWR|os.O_CREATE|os.O_EXCL, 0o600)
+		if err == nil || !Errors_Is(err, fs.ErrExist) {
+			return f, err
+		}
+	}
+}
+
+func Math0rand0v2_Int64() int64 {
+	vTempCounter++
+	return int64(vTempCounter)
+}
+
+func Os_WriteFile(name string, data []byte, perm fs.FileMode) error {
+	f, err := Os_OpenFile(name, os.O_WRONLY|os.O_CREATE|os.O_TRUNC, perm)
+	if err != nil {
+		return err
+	}
+	_, err = OsFile_Write(f, data)
+	if err1 := OsFile_Close(f); err1 != nil && err == nil {
+		err = err1
+	}
+	return err
 }
